@@ -48,6 +48,10 @@ func c03Oracle(c ngapCase) ev.Verdict {
 		v.NT = true
 		v.Classes = append(v.Classes, "nt:int-range>64K")
 	}
+	if c.Ext > 0 {
+		v.NT = true
+		v.Classes = append(v.Classes, "nt:value-above-root-of-extensible-constraint")
+	}
 	if w.MaxList >= 128 {
 		v.NT = true
 		v.Classes = append(v.Classes, "nt:list>=128")
